@@ -253,17 +253,24 @@ def check(case, rec):
         for o in ops:
             o.unchanged(where, rec)
 
-    def iterate(lazy, where):
+    alive = []
+
+    def iterate(lazy, where, again=False):
         # the defaults delivered during one traversal are all kept alive in the result, so object identity
-        # decides whether each absent side got a default of its own
-        bag = []
-        for o in ops:
-            o.fresh_now = bag
-        return _iterate(lazy, where)
+        # decides whether each absent side got a default of its own.  `again`: a further traversal of the SAME
+        # lazy fiber -- its defaults must be fresh ones too, not those of the traversal before
+        if not again:
+            bag = []
+            for o in ops:
+                o.fresh_now = bag
+        got_ = _iterate(lazy, where)
+        alive.append(got_)
+        return got_
 
     # ---- a & b
+    lz = a.fiber & b.fiber          # one lazy fiber, traversed twice
     for rep in range(2):
-        got = iterate(a.fiber & b.fiber, "a&b")
+        got = iterate(lz, "a&b", again=rep > 0)
         want = [c for c in A if c in sB]
         if [c for c, _ in got] != want:
             raise Violation("and-coords", f"a&b yields {[c for c, _ in got]}, intersection is {want}; a={a.desc} b={b.desc}")
@@ -274,8 +281,9 @@ def check(case, rec):
     after("a&b")
 
     # ---- a | b
+    lz = a.fiber | b.fiber          # one lazy fiber, traversed twice
     for rep in range(2):
-        got = iterate(a.fiber | b.fiber, "a|b")
+        got = iterate(lz, "a|b", again=rep > 0)
         want = sorted(sA | sB)
         if [c for c, _ in got] != want:
             raise Violation("or-coords", f"a|b yields {[c for c, _ in got]}, union is {want}; a={a.desc} b={b.desc}")
@@ -289,8 +297,9 @@ def check(case, rec):
         after("a|b")
 
     # ---- a ^ b
+    lz = a.fiber ^ b.fiber          # one lazy fiber, traversed twice
     for rep in range(2):
-        got = iterate(a.fiber ^ b.fiber, "a^b")
+        got = iterate(lz, "a^b", again=rep > 0)
         want = sorted(sA ^ sB)
         if [c for c, _ in got] != want:
             raise Violation("xor-coords", f"a^b yields {[c for c, _ in got]}, symmetric difference is {want}; a={a.desc} b={b.desc}")
@@ -304,8 +313,9 @@ def check(case, rec):
         after("a^b")
 
     # ---- a - b
+    lz = a.fiber - b.fiber          # one lazy fiber, traversed twice
     for rep in range(2):
-        got = iterate(a.fiber - b.fiber, "a-b")
+        got = iterate(lz, "a-b", again=rep > 0)
         want = [c for c in A if c not in sB]
         gotc = [c for c, _ in got]
         if gotc != want:
@@ -323,8 +333,9 @@ def check(case, rec):
     pres = [dict(o.pres) for o in ops]
     sets = [set(p) for p in pres]
     fibs = [o.fiber for o in ops]
+    lz = Fiber.intersection(*fibs)
     for rep in range(2):
-        got = iterate(Fiber.intersection(*fibs), "intersection")
+        got = iterate(lz, "intersection", again=rep > 0)
         want = [c for c in A if all(c in s for s in sets)]
         if [c for c, _ in got] != want:
             raise Violation("nary-and-coords", f"intersection yields {[c for c, _ in got]}, expected {want}; {case['fibers']}")
@@ -333,8 +344,9 @@ def check(case, rec):
             for o, x in zip(ops, ps):
                 o.check_payload(c, x, "intersection")
     after("intersection")
+    lz = Fiber.union(*fibs)
     for rep in range(2):
-        got = iterate(Fiber.union(*fibs), "union")
+        got = iterate(lz, "union", again=rep > 0)
         want = sorted(set().union(*sets))
         if [c for c, _ in got] != want:
             raise Violation("nary-or-coords", f"union yields {[c for c, _ in got]}, expected {want}; {case['fibers']}")
@@ -348,8 +360,9 @@ def check(case, rec):
         after("union")
 
     # ---- leader-follower
+    lz = Fiber.intersection(*fibs, style="leader-follower")
     for rep in range(2):
-        got = iterate(Fiber.intersection(*fibs, style="leader-follower"), "leader-follower")
+        got = iterate(lz, "leader-follower", again=rep > 0)
         if [c for c, _ in got] != A:
             raise Violation("lf-coords", f"leader-follower yields {[c for c, _ in got]}, leader presents {A}")
         for c, p in got:
@@ -360,7 +373,13 @@ def check(case, rec):
                 stored = {model.tuplify(cc): i for i, (cc, _) in enumerate(o.desc["elems"])}
                 if c in stored:
                     if x is not o.fiber.payloads[stored[c]]:
-                        raise Violation("lf-payload", f"leader-follower: follower payload at {c} is not the stored object")
+                        # (an explicit default / empty sub-fiber "counts as absent": the stored object or a fresh
+                        # default are both what the statement allows for it)
+                        if c not in o.pres_map or o.pres_map[c] is None or not _nonempty(o, c):
+                            _fresh(o, c, x, "lf[follower, stored but empty]")
+                        else:
+                            raise Violation("lf-payload", f"leader-follower: follower payload at {c} is not the stored "
+                                            f"object")
                 else:
                     _fresh(o, c, x, "lf[follower]")
     after("leader-follower")
